@@ -276,8 +276,10 @@ def fam_ws(k, alphabet):
       kids.append(node("span", [text(texts[j])], id=f"s{j}", sp=spaces[j]))
       if j < k - 1 and brs[j]:
         kids.append({"k": "br", "id": f"br{j}"})
-    p = node("p", kids, id="p")
-    body = node("body", [node("div", [p], id="d")], id="b", sp=bodysp)
+    # the last dimension is the paragraph's own xml:space (every span states its own, so that only the white-space pass can
+    # tell a preserved paragraph from a default one); half of the time the body carries it as well
+    p = node("p", kids, id="p", sp=bodysp)
+    body = node("body", [node("div", [p], id="d")], id="b", sp=bodysp if i % 2 else None)
     # spans without an explicit space would inherit in TTML, but the model stores the resolved value per element
     return {"spec": doc_spec(body, []), "ws": True, "times": [F(0)], "key": f"F-ws{k}#{i}"}
   return Family(f"F-ws[{k} nodes]", prod.n, dec, check_doc, timeout=30, note="text nodes x xml:space x br gaps")
